@@ -41,6 +41,9 @@ def make_keymap(spec):
     if spec is None:
         return None
     import klepto.keymaps as km
+    if spec.get('then'):
+        # chained keymaps: THEN + BASE encodes the call with BASE and then the resulting key with THEN (klepto: 'hp = p + h')
+        return make_keymap(spec['then']) + make_keymap(dict((k, v) for k, v in spec.items() if k != 'then'))
     kw = {'flat': bool(spec.get('flat', True)), 'typed': bool(spec.get('typed', False))}
     if spec.get('sentinel'):
         kw['sentinel'] = km.SENTINEL
